@@ -120,7 +120,11 @@ pub fn gen_primary(rng: &mut Rng, wf: bool) -> PrimaryBlock {
     p.destination = if wf { gen_eid_wf(rng) } else { gen_eid_any(rng) };
     p.source = if wf { gen_eid_wf(rng) } else { gen_eid_any(rng) };
     p.report_to = if wf { gen_eid_wf(rng) } else { gen_eid_any(rng) };
-    p.creation_timestamp = CreationTimestamp::with_time_and_seq(rng.u64b(), rng.u64b());
+    // creation times: anywhere in u64, with the boundaries of the time formatting code (end of year 9999 as
+    // DTN and as Unix time, the last value whose Unix form fits u64) well represented
+    let t = if rng.chance(1, 6) { *rng.pick(&[252_455_615_999_999u64, 252_455_616_000_000, 252_455_616_000_001, 253_402_300_799_999, 253_402_300_800_000,
+        u64::MAX - 946_684_800_000, u64::MAX - 946_684_799_999, u64::MAX, 1]) } else { rng.u64b() };
+    p.creation_timestamp = CreationTimestamp::with_time_and_seq(t, rng.u64b());
     p.lifetime = Duration::from_millis(match rng.below(4) { 0 => 3_600_000, _ => rng.u64b() });
     if p.bundle_control_flags & 1 == 1 || (!wf && rng.chance(1, 10)) {
         p.fragmentation_offset = rng.u64b();
